@@ -258,12 +258,51 @@ def gen_codec_panics(repo):
             raise ExtractionError(T, rel, f"HashMap reservation argument `{arg}` not understood")
     def q(x):
         return '"' + x.replace("\\", "\\\\").replace('"', '\\"') + '"'
+    # sequences: the pre-allocation must be capped by the unread input as well
+    m = re.search(r"impl<T>\s*DecodeFrom\s+for\s+Vec<T>", dsrc)
+    if not m:
+        raise ExtractionError(T, rel, "Vec DecodeFrom impl not found")
+    vbody = block_after(dsrc, dsrc.index("{", dsrc.index("fn decode_from", m.end())))
+    r = re.search(r"vector\.try_reserve(?:_exact)?\(([^;]*)\)\?;", vbody)
+    if not r:
+        vreserve = "announced * 0"
+    else:
+        arg = re.sub(r"\s+", "", r.group(1))
+        if arg in ("usize::min(length,decoder.remaining())", "length.min(decoder.remaining())", "core::cmp::min(length,decoder.remaining())",
+                   "usize::min(decoder.remaining(),length)"):
+            vreserve = "min announced remaining"
+        elif arg == "length":
+            vreserve = "announced + remaining * 0"
+        else:
+            raise ExtractionError(T, rel, f"Vec reservation argument `{arg}` not understood")
+    # strings: are the announced bytes read (which fails when they are not there) before memory for them is allocated?
+    m = re.search(r"impl\s+DecodeFrom\s+for\s+String", dsrc)
+    if not m:
+        raise ExtractionError(T, rel, "String DecodeFrom impl not found")
+    sbody = block_after(dsrc, dsrc.index("{", dsrc.index("fn decode_from", m.end())))
+    rd = re.search(r"decoder\.read_byte_slice_exact\(length\)\?", sbody)
+    rs = re.search(r"vector\.try_reserve(?:_exact)?\(([^;]*)\)\?;", sbody)
+    if rs is None:
+        raise ExtractionError(T, rel, "String::decode_from no longer reserves through try_reserve*: not understood")
+    sarg = re.sub(r"\s+", "", rs.group(1))
+    if rd and rd.start() < rs.start() and sarg == "length":
+        sreserve = "if announced ≤ remaining then announced else 0"      # the read fails first when the bytes are not there
+    elif sarg in ("usize::min(length,decoder.remaining())", "length.min(decoder.remaining())"):
+        sreserve = "min announced remaining"
+    elif sarg == "length":
+        sreserve = "announced + remaining * 0"
+    else:
+        raise ExtractionError(T, rel, f"String reservation argument `{sarg}` not understood")
     text = f"""-- GENERATED by translator/extract.py from slice-codec/src — do not edit.
 namespace Slicec.Gen
 /-- panic-capable macro / method sites in non-test code of slice-codec -/
 def codecPanicSites : List String := [{", ".join(q(x) for x in sites)}]
 /-- what `HashMap::decode_from` pre-allocates, as a function of the announced length and the unread bytes -/
 def hashMapReserve (announced remaining : Nat) : Nat := {reserve}
+/-- elements `Vec::decode_from` pre-allocates -/
+def vecReserve (announced remaining : Nat) : Nat := {vreserve}
+/-- bytes `String::decode_from` allocates -/
+def stringReserve (announced remaining : Nat) : Nat := {sreserve}
 end Slicec.Gen
 """
     return text, len(sites) + 1
